@@ -108,4 +108,27 @@ def c32(prop, tier, replay):
         nontrivial_tags=["any"])
 
 
-REGISTRY = {"C31": c31, "C32": c32}
+def ebnf_gens(tier, emit_lang):
+    core = {"NTs": {"S"}, "Ts": {"a", "b"}, "MaxTok": 5 if tier == "quick" else 6, "MaxDepth": 2, "MaxProds": 1,
+            "LangN": 4, "EmitLang": emit_lang}
+    wide = {"NTs": {"S", "A"}, "Ts": {"a", "b"}, "MaxTok": 8, "MaxDepth": 3, "MaxProds": 2, "LangN": 4, "EmitLang": emit_lang}
+    return [{"module": "Gen_Ebnf", "constants": core, "invariants": ["Emit"], "no_shard_consts": True},
+            {"module": "Gen_Ebnf", "constants": wide, "invariants": ["Emit"], "no_shard_consts": True,
+             "simulate": 150 if tier == "quick" else 4000, "nshards": 16, "depth": 30}]
+
+
+def c09(prop, tier, replay):
+    return simple_check(
+        prop, tier, replay, ebnf_gens(tier, False), "canon",
+        "EBNF grammars as token sequences over symbols and ( ) [ ] { } | : every balanced right-hand side of up to 5 (6) tokens, nesting 2, "
+        "for one production (exhaustive) plus random walks with two productions, 8 tokens, nesting 3; each is written as PAR text for both "
+        "grammar types, also with the second non-terminal renamed to a helper name parol would generate (<X>Opt, <X>List, <X>Group, ..0); "
+        "parol's front end canonicalises it; Xform.tla checks on the recorded pair that every user non-terminal (the start symbol in "
+        "particular) has the same bounded language in the BNF result as its EBNF definition (LangE of Ebnf.tla: groups, optionals, Kleene "
+        "star, alternatives) and that the result is plain BNF. non-trivial: helper non-terminals were introduced",
+        tv_module="Xform", boundary="xform", nontrivial_tags=["helpers_introduced"], pv_env={"PV_LANGN": 4}, exhaustive=False,
+        describe=lambda first, ev, run_ev: ({"vec": ev.get("vec"), "kind": "canon", "type": ev.get("type"), "before": ev.get("before")},
+                                            f"canon {ev.get('type')}: before {json.dumps(ev.get('before'))[:300]} after {json.dumps(ev.get('after'))[:400]}"))
+
+
+REGISTRY = {"C31": c31, "C32": c32, "C09": c09}
